@@ -540,9 +540,11 @@ def det_fitters(specs):
     return out
 
 
-def run_crossval(ctx, tap):
+def run_crossval(ctx, tap, two_group=False):
     rng = ctx.rng
-    w = make_world(rng, ties_ok=False)
+    w = make_world(rng, ties_ok=False, n_cond=8 if two_group else None)
+    if two_group:   # four condition groups of two conditions each, in random positions
+        w['pd']['pgrp'] = [int(v) * 2 + 1 for v in rng.permutation([0, 0, 1, 1, 2, 2, 3, 3])]
     specs = make_models(rng, w, True)
     models = [s[0] for s in specs]
     fit_arg = [s[2] for s in specs]
@@ -550,13 +552,18 @@ def run_crossval(ctx, tap):
     has_weighted = any(isinstance(m, ModelWeighted) for m in models)
     method = gen.pick(rng, ['cosine', 'corr', 'cosine_cov'] if has_weighted else
                       ['cosine', 'corr', 'spearman', 'rho-a', 'cosine_cov'])   # fit_regress: cosine/corr(_cov) only
-    grouped = bool(rng.integers(2))
+    grouped = bool(rng.integers(2)) or two_group
     rdesc, pdesc = ('grp', 'pgrp') if grouped else ('uid', 'puid')
     n_rg = unique_groups(w, 'rdm') if grouped else w['n_rdm']
     n_pg = unique_groups(w, 'pattern') if grouped else w['n_cond']
     k_r = int(rng.integers(1, min(3, n_rg) + 1))
     # documented minimum: 3 condition groups per fold (default_k_pattern: 'minimum number of patterns is 3*k')
     k_p = int(rng.integers(1, max(1, min(3, n_pg // 3)) + 1))
+    if grouped and n_pg >= 4 and n_pg < w['n_cond'] and (two_group or rng.integers(2)):
+        # an explicit k_pattern below that minimum: folds of two descriptor GROUPS that hold more than two conditions
+        # are evaluable (the NaN rule counts conditions, not groups) -- seeded change C04-ac
+        k_p = n_pg // 2
+        ctx.count('two_group_folds_requested')
     if k_r == 1 and k_p == 1:
         k_p = 2 if n_pg >= 6 else 1
         k_r = 2 if k_p == 1 else 1
@@ -975,7 +982,7 @@ def run(ctx):
             for r in ('eval_bootstrap', 'eval_bootstrap_pattern', 'eval_bootstrap_rdm'):
                 run_bootstrap_like(ctx, r, tap)
             run_crossval(ctx, tap)
-            run_crossval(ctx, tap)
+            run_crossval(ctx, tap, two_group=bool(it % 2))
             run_boot_cv(ctx, 'bootstrap_crossval', tap)
             run_boot_cv(ctx, 'eval_dual_bootstrap_random', tap)
             if it % 2 == 0:
